@@ -134,6 +134,39 @@ def _stack(n_rdm, n_cond):
                                pattern_descriptors={'index': np.arange(n_cond)})
 
 
+def search_c04():
+    import rsatoolbox
+    from rsatoolbox.rdm import RDMs
+    from rsatoolbox.model import ModelFixed
+    from rsatoolbox import inference as I
+    rs = np.random.RandomState(4)
+    subj, cat = [0, 0, 1, 1, 2, 2], [0, 0, 1, 1, 2, 3, 4, 5, 6, 7]
+    D = RDMs(rs.rand(6, 45), rdm_descriptors={'subj': subj}, pattern_descriptors={'cat': cat})
+    m = ModelFixed('m', RDMs(rs.rand(1, 45), pattern_descriptors={'cat': cat}))
+    g_r, g_c = len(set(subj)), len(set(cat))
+    calls = [('eval_bootstrap_rdm', lambda: I.eval_bootstrap_rdm(m, D, N=4, rdm_descriptor='subj'), g_r - 1),
+             ('eval_bootstrap_pattern', lambda: I.eval_bootstrap_pattern(m, D, N=4, pattern_descriptor='cat'), g_c - 1),
+             ('eval_bootstrap', lambda: I.eval_bootstrap(m, D, N=4, rdm_descriptor='subj', pattern_descriptor='cat'), min(g_r, g_c) - 1),
+             ('eval_bootstrap (ungrouped)', lambda: I.eval_bootstrap(m, D, N=4), min(6, 10) - 1),
+             ('eval_dual_bootstrap', lambda: I.eval_dual_bootstrap(m, D, N=4, k_pattern=1, k_rdm=2, rdm_descriptor='subj',
+                                                                  pattern_descriptor='cat'), min(g_r, g_c) - 1)]
+    for bt, want in (('both', min(g_r, g_c) - 1), ('rdm', g_r - 1), ('pattern', g_c - 1)):
+        calls.append((f'bootstrap_crossval(boot_type={bt})',
+                      lambda bt=bt: I.bootstrap_crossval(m, D, N=4, k_pattern=1, k_rdm=2, rdm_descriptor='subj', pattern_descriptor='cat',
+                                                         boot_type=bt), want))
+    for name, f, want in calls:
+        np.random.seed(1)
+        try:
+            got = int(f().dof)
+        except Exception as e:
+            return _fail(name, dict(n_rdm=6, rdm_groups=subj, n_cond=10, pattern_groups=cat), f'raised {type(e).__name__}: {e}', want,
+                         'the evaluation routine raised')
+        if got != want:
+            return _fail(name, dict(n_rdm=6, rdm_groups=subj, n_cond=10, pattern_groups=cat), got, want,
+                         'the degrees of freedom are not the number of resampled units (descriptor groups) minus one')
+    return None
+
+
 def search_c05():
     from rsatoolbox.inference import crossvalsets as cv
     for n in range(2, 13):
